@@ -46,7 +46,7 @@ def _short(callee):
 
 
 class Sig:
-    __slots__ = ("kind", "rel", "lo", "hi", "names", "consts", "ops", "calls", "truth", "variants", "values", "atom", "lo_names", "hi_names", "lo_consts", "hi_consts", "lo_calls", "hi_calls")
+    __slots__ = ("kind", "rel", "lo", "hi", "names", "consts", "ops", "calls", "truth", "variants", "values", "atom", "lo_names", "hi_names", "lo_consts", "hi_consts", "lo_calls", "hi_calls", "lo_val", "hi_val")
 
     def __repr__(self):
         return "<Sig %s %s names=%s consts=%s ops=%s calls=%s>" % (self.kind, self.rel, sorted(self.names), sorted(self.consts), sorted(self.ops), sorted(self.calls))
@@ -61,6 +61,7 @@ def sig(a, fn):
     s.variants = None
     s.values = None
     s.lo = s.hi = None
+    s.lo_val = s.hi_val = None
     s.lo_names = s.hi_names = s.lo_consts = s.hi_consts = s.lo_calls = s.hi_calls = frozenset()
     if a[0] == "cmp":
         op, l, r = a[1], a[2], a[3]
@@ -78,10 +79,16 @@ def sig(a, fn):
             n1 = n1 | _collect(l0, fn)[0]   # keep the identity of a named constant (e.g. ENOUGH_LENS)
         if r is not r0:
             n2 = n2 | _collect(r0, fn)[0]
+        # a side that is pure constant arithmetic (MIN_LEFT - 2) counts as its folded value, not as its parts
+        if cval(l) is not None and o1:
+            c1 = {cval(l)}
+        if cval(r) is not None and o2:
+            c2 = {cval(r)}
         s.names, s.consts, s.ops, s.calls = n1 | n2, c1 | c2, o1 | o2, k1 | k2
         s.lo_names, s.hi_names = frozenset(n1), frozenset(n2)
         s.lo_consts, s.hi_consts = frozenset(c1), frozenset(c2)
         s.lo_calls, s.hi_calls = frozenset(k1), frozenset(k2)
+        s.lo_val, s.hi_val = cval(l), cval(r)   # a side that is constant arithmetic folds to its value
     elif a[0] == "truth":
         s.names, s.consts, s.ops, s.calls, _ = _collect(a[1], fn)
         s.truth = a[2]
@@ -121,7 +128,7 @@ def match(s, pat):
                     return False
             elif s.rel != v:
                 return False
-        elif k in ("names", "consts", "ops", "calls", "lo_consts", "hi_consts", "lo_names", "hi_names", "lo_calls", "hi_calls"):
+        elif k in ("names", "consts", "ops", "calls", "lo_consts", "hi_consts", "lo_names", "hi_names", "lo_calls", "hi_calls", "lo_val", "hi_val"):
             if not set(v) <= set(getattr(s, k)):
                 return False
         elif k == "not_consts":
@@ -137,11 +144,11 @@ def match(s, pat):
             if getattr(s, k) != v:
                 return False
         elif k == "lo_ge":
-            ints = [c for c in s.lo_consts if isinstance(c, int)]
+            ints = [c for c in s.lo_consts if isinstance(c, int)] if s.lo_val is None else [s.lo_val]
             if not ints or max(ints) < v:
                 return False
         elif k == "hi_ge":
-            ints = [c for c in s.hi_consts if isinstance(c, int)]
+            ints = [c for c in s.hi_consts if isinstance(c, int)] if s.hi_val is None else [s.hi_val]
             if not ints or max(ints) < v:
                 return False
         elif k == "any_names":
